@@ -119,24 +119,41 @@ Theorem lex_is_reflex_macro_free msep src :
   map tv0 (b_toks (lr_buffer r)) = map rv T /\ map ev0 (lr_errors r) = map rve E /\
   b_lit (lr_buffer r) = lit /\
   s_aborted (lr_end r) = false /\ s_loop_detected (lr_end r) = false /\
-  s_iters (lr_end r) <= 2 * len (body_of src).
+  s_iters (lr_end r) <= 2 * len (body_of src) /\
+  s_cp (lr_end r) = None /\ s_mnl (lr_end r) = 0 /\
+  (s_modes (lr_end r) = [MDefault] \/ s_modes (lr_end r) = [MStringExpr true; MDefault]).
 Proof.
+  assert (W : forall (r : lex_result) (T : list rtok) (E : list rerr) (rs : rstate) (n : N),
+            lr_outcome r = None /\ s_aborted (lr_state r) = false /\
+            map tv0 (b_toks (lr_buffer r)) = map rv T /\ map ev0 (lr_errors r) = map rve E /\
+            b_lit (lr_buffer r) = rev (rs_lit rs) /\
+            s_aborted (lr_end r) = false /\ s_loop_detected (lr_end r) = false /\
+            s_iters (lr_end r) <= n /\ EndCfg (lr_end r) rs ->
+            lr_outcome r = None /\ s_aborted (lr_state r) = false /\
+            map tv0 (b_toks (lr_buffer r)) = map rv T /\ map ev0 (lr_errors r) = map rve E /\
+            b_lit (lr_buffer r) = rev (rs_lit rs) /\
+            s_aborted (lr_end r) = false /\ s_loop_detected (lr_end r) = false /\
+            s_iters (lr_end r) <= n /\
+            s_cp (lr_end r) = None /\ s_mnl (lr_end r) = 0 /\
+            (s_modes (lr_end r) = [MDefault] \/ s_modes (lr_end r) = [MStringExpr true; MDefault])).
+  { intros r T E rs n (H1 & H2 & H3 & H4 & H5 & H6 & H7 & H8 & (C1 & C2 & C3)).
+    repeat (split; [assumption|]). destruct C3 as [[C3 _]|C3]; [left|right]; exact C3. }
   intros Hok. cbv zeta. unfold lex, reflex, body_of in *. unfold split_bom in *.
   destruct src as [|c r].
   - cbn [snd] in *.
     pose proof (lex_text_is_reflex [] 0 0 msep okP okP_tail
                   (all_classes [] 0 (S (List.length (@nil char))) msep _) Hok) as H.
     cbv zeta in H. change (rs0) with (mkRstate false None [] 0) in H.
-    destruct (reflex_loop (S (List.length (@nil char))) [] 0 (mkRstate false None [] 0) [] []) as [[T E] rs]. exact H.
+    destruct (reflex_loop (S (List.length (@nil char))) [] 0 (mkRstate false None [] 0) [] []) as [[T E] rs]. exact (W _ _ _ _ _ H).
   - change BOM with 65279 in *. destruct (c =? 65279) eqn:Eb.
     + cbn [snd] in *.
       pose proof (lex_text_is_reflex r (utf8_len c) 1 msep okP okP_tail
                     (all_classes r (utf8_len c) (S (List.length r)) msep _) Hok) as H.
       cbv zeta in H. change (rs0) with (mkRstate false None [] 0) in H.
-      destruct (reflex_loop (S (List.length r)) r (utf8_len c) (mkRstate false None [] 0) [] []) as [[T E] rs]. exact H.
+      destruct (reflex_loop (S (List.length r)) r (utf8_len c) (mkRstate false None [] 0) [] []) as [[T E] rs]. exact (W _ _ _ _ _ H).
     + cbn [snd] in *.
       pose proof (lex_text_is_reflex (c :: r) 0 0 msep okP okP_tail
                     (all_classes (c :: r) 0 (S (List.length (c :: r))) msep _) Hok) as H.
       cbv zeta in H. change (rs0) with (mkRstate false None [] 0) in H.
-      destruct (reflex_loop (S (List.length (c :: r))) (c :: r) 0 (mkRstate false None [] 0) [] []) as [[T E] rs]. exact H.
+      destruct (reflex_loop (S (List.length (c :: r))) (c :: r) 0 (mkRstate false None [] 0) [] []) as [[T E] rs]. exact (W _ _ _ _ _ H).
 Qed.
